@@ -60,6 +60,15 @@ pub async fn run_socket_worker(
     server_start_instant: ServerStartInstant,
     worker_index: usize,
 ) -> anyhow::Result<()> {
+    #[cfg(aquatic_verif)]
+    match aquatic_common::verif::probe("ws.socket.start") {
+        aquatic_common::verif::ACTION_RETURN_OK => return Ok(()),
+        aquatic_common::verif::ACTION_RETURN_ERR => {
+            return Err(anyhow::anyhow!("verif: injected socket worker error"))
+        }
+        _ => (),
+    }
+
     #[cfg(feature = "metrics")]
     WORKER_INDEX.with(|index| index.set(worker_index));
 
@@ -132,6 +141,18 @@ pub async fn run_socket_worker(
     let mut incoming = listener.incoming();
 
     while let Some(stream) = incoming.next().await {
+        #[cfg(aquatic_verif)]
+        match aquatic_common::verif::probe("ws.socket.accept") {
+            aquatic_common::verif::ACTION_RETURN_OK => return Ok(()),
+            aquatic_common::verif::ACTION_RETURN_ERR => {
+                return Err(anyhow::anyhow!("verif: injected socket worker error"))
+            }
+            _ => (),
+        }
+
+        #[cfg(aquatic_verif)]
+        aquatic_common::verif::count(&format!("ws.accepted.{}", worker_index));
+
         match stream {
             Err(err) => {
                 ::log::error!("accept connection: {:#}", err);
